@@ -111,7 +111,7 @@ theorem MInv.of_sub {s s' : State} (hm : MInv s) (hS : SameButStackList s s') (h
 theorem Tr.of_quiet {s s' : State} {calls : List Call} (hm : MInv s) (he : Ext2 s calls s') (hc : edits2 calls = [])
     (ho : ∀ h ∈ s'.openElems, h ∈ s.openElems) (hm' : MInv s') (hcfg : cfgOf s' = cfgOf s) :
     Tr s s' calls (fun x x' => x' = x) := by
-  refine ⟨hm', hcfg, he.ext, [], fun x rest hx hs => ⟨x, ⟨⟨hx.live, ?_, ?_, hx.xlog⟩, by simpa using hs, rfl, rfl, rfl, [],
+  refine ⟨hm', hcfg, he.ext, [], FreshIds.nil _, fun x rest hx hs => ⟨x, ⟨⟨hx.live, ?_, ?_, hx.xlog⟩, by simpa using hs, rfl, rfl, rfl, [],
     by simp, fun _ _ => by rw [hc]; rfl⟩, rfl⟩⟩
   · have := annot_of_sub he.ext hm ho x hx
     simpa using this
@@ -422,7 +422,7 @@ theorem pc_setMode_junk {s : State} (hm : MInv s) (m : Mode) (hne : m ≠ .inTab
         absF s' x' = (absF s x).setMode (imode m))) := by
   unfold setMode
   refine pc_modS rfl rfl ⟨rfl, ?_⟩
-  refine ⟨hm.withMode m, rfl, TBSafe.Ext.refl _, [], fun x rest hx hs => ?_⟩
+  refine ⟨hm.withMode m, rfl, TBSafe.Ext.refl _, [], FreshIds.nil _, fun x rest hx hs => ?_⟩
   refine ⟨{ x with pendingJunk := (absF s x).pendingTableChars }, ⟨⟨hx.live, hx.annot, hx.annotEl, hx.xlog⟩, by simpa using hs,
     rfl, rfl, rfl, [], by simp [Aux.fullLog], fun _ _ => rfl⟩, rfl, ?_⟩
   have : (m == Mode.inTableText) = false := by
@@ -880,10 +880,10 @@ edits `L` and whose new stack entries are HTML elements -/
 theorem tr_of_phase1 {s s' : State} {calls : List Call} (hm : MInv s) (he : Ext2 s calls s')
     (hS : SameButStackList s s') (hm' : MInv s')
     (hnew : ∀ h ∈ s'.openElems, h ∈ s.openElems ∨ (nameOf s'.dom h).ns = nsHtml)
-    (ids : List Id) (L : List (Edit Id Tag)) (hL : ∀ tc, TcOk s'.dom tc → edits calls = L.map (editCall tc)) :
+    (ids : List Id) (hfi : FreshIds s ids) (L : List (Edit Id Tag)) (hL : ∀ tc, TcOk s'.dom tc → edits calls = L.map (editCall tc)) :
     Tr s s' calls (fun x x' => x' = x.step ids.length L [] ∧ (∃ rest, x.supply = ids ++ rest) ∧
       absF s' x' = { absF s x with p := absP s' x' }) := by
-  refine (Tr.of_edits hm' (cfgOf_sbsl hm hS he.ext) he ids L [] hL ?_ (by simp)).conseq ?_
+  refine (Tr.of_edits hm' (cfgOf_sbsl hm hS he.ext) he ids L [] hfi hL ?_ (by simp)).conseq ?_
   · intro x hx h hh hn
     rcases hnew h hh with h1 | h1
     · rw [nameOf_ext he.ext (hm.elems h h1)] at hn
@@ -1007,7 +1007,7 @@ theorem pc_reconstruct {s : State} (hm : MInv s) :
     obtain ⟨hD, hH⟩ := reconstruct_delta tagCtx _ _ _ (tokOk_absState s ids []) hsp0
     obtain ⟨hm', hnew, htok⟩ := minv_of_delta hm he hS hok' ids L hfresh (hL _ (TcOk.self _)) hD hH
     refine ⟨hS, fun hw => hw.of_new hm he.ext htok, ?_⟩
-    refine (tr_of_phase1 hm he hS hm' hnew ids L hL).conseq ?_
+    refine (tr_of_phase1 hm he hS hm' hnew ids (FreshIds.of_size hfresh) L hL).conseq ?_
     rintro x x' hx _ ⟨hx', ⟨rest, hsup⟩, hF⟩
     subst hx'
     unfold Spec.TreeModes.reconstruct
@@ -1477,7 +1477,8 @@ theorem pc_createFormattingElementFor {s : State} (hm : MInv s) (tag : Tag) (hk 
       rcases List.mem_append.mp hh with h1 | h1
       · exact Or.inl h1
       · simp only [List.mem_singleton] at h1; subst h1; rw [hnm]; exact Or.inr rfl
-    refine ⟨⟨af1, hs'⟩, hw', (tr_of_phase1 hm he hS hm' hnew [elem] L
+    refine ⟨⟨af1, hs'⟩, hw', (tr_of_phase1 hm he hS hm' hnew [elem]
+      (FreshIds.of_size (by intro n hn; simp only [List.mem_singleton] at hn; subst hn; exact hfresh)) L
       (fun tc htc => hL tc (tcOk_of_ext htc hx))).conseq ?_⟩
     rintro x x' hx0 _ ⟨hx', ⟨rest, hsup⟩, hF⟩
     subst hx'
